@@ -6,6 +6,7 @@
 package vlib
 
 import (
+	"github.com/thushan/olla/pkg/pool"
 	"bufio"
 	"encoding/json"
 	"fmt"
@@ -147,6 +148,10 @@ func (c *Cases) Close(extra map[string]any) {
 	c.w.Flush()
 	c.f.Close()
 	meta := map[string]any{"cases": c.n, "histogram": c.hist}
+	if n, first := pool.VerifReleasesOfObjectsNotCheckedOut(); n > 0 {
+		meta["pool_releases_of_objects_not_checked_out"] = n
+		meta["pool_first_bad_release"] = first
+	}
 	for k, v := range extra {
 		meta[k] = v
 	}
